@@ -1,14 +1,16 @@
 #!/usr/bin/env python3
-"""SMT-lemma table of ../README.md and coverage check of Secp/SecpSMT.lean + Secp/SecpSMT2.lean.
+"""SMT-lemma table of ../README.md and coverage check of Secp/SecpSMT.lean + Secp/SecpSMT2.lean + Secp/SecpSMT3.lean.
 
 Reads the `//@ lemma name(params) {lean: ...}: body` lines of the three contract files (read-only), looks up
-`theorem <name>` in section 3 of Secp/SecpSMT.lean and of Secp/SecpSMT2.lean, and
+`theorem <name>` in section 3 of Secp/SecpSMT.lean, Secp/SecpSMT2.lean and Secp/SecpSMT3.lean, and
   * reports lemma lines without a theorem, theorems missing from build.sh's THEOREMS list, and theorems
     without an entry in RESTS below (exit status 1 if any),
   * treats the lemmas of ASSUMED below as intentionally unproved: each must carry a `{lean: ASSUMED ...}` tag in
     the contract file, must NOT have a theorem, must NOT be in build.sh's THEOREMS list, must be in build.sh's
     ASSUMED list, and must have its literal translation recorded as `def <name>_statement ... : Prop` in
-    SecpSMT.lean; a lemma tagged ASSUMED that is not in the allowlist is an error,
+    SecpSMT.lean; a lemma tagged ASSUMED that is not in the allowlist and has no theorem is an error; one that is
+    tagged ASSUMED but HAS a theorem (proved after the tag was written; the contract files are read-only here) is
+    reported as a note and treated as proved (listed in STALE_TAG_OK below),
   * checks that every line between `-- BEGIN SHARED` and `-- END SHARED` of SecpSMT2.lean (the vocabulary it has
     to repeat because it cannot import SecpSMT.lean) is verbatim a line of SecpSMT.lean,
   * rewrites the block between `<!-- BEGIN SMT LEMMAS -->` and `<!-- END SMT LEMMAS -->` of ../README.md
@@ -83,14 +85,20 @@ RESTS = {
                      "(contract constants = `Secp.Zc`, `Secp.A'`, `Secp.B'`, `Secp.c2`); " + PRIME_P,
     "iso_valid": "`Secp.iso_on_curve` (M2), `field_simp`; `K10_cast` .. `K42_cast` (contract constants = `Secp.k10` .. "
                  "`Secp.k42`); the `iso_id` branch is `(0, 1, 0)`",
+    "iso_hom_chord": "`SecpSMT3.lean`: in `t = x - 6w` the isogeny is Vélu's one-parameter family (`AC_w` .. `K30_w`, `2w³ = 7`); "
+                     "no point of E'(F_P) is in the kernel because 7 is not a square mod P (`seven_nonsq`, `not_kernel`), so `iso_id` never holds; "
+                     "collinear points map to collinear points (`line_T`), `X1 + X2 + X3 = L²` (`sum_T`, `vieta`), `X2 ≠ X1` (`X_ne`, `Hdisc`), "
+                     "then `Affine.Point.add_of_X_ne` (`hom_T`); `chord_on_curve`; `Secp.pt_of_affine` (E4); `Secp.hypP`; " + PRIME_P,
     "chord_on_curve": "`linear_combination` (x2 - x3)·e1 + (x3 - x1)·e2 + (x3 - x1)(y2 + y1 + l(x2 - x1))·(l(x2 - x1) = y2 - y1), "
                       "then cancel `x2 - x1 ≠ 0` (`mul_eq_zero`); any field, any A', B'",
 }
-# lemmas the contract files tag `{lean: ASSUMED ...}`: intentionally without a theorem (and never `ok` in the stamp)
+# lemmas the contract files tag `{lean: ASSUMED ...}`: intentionally without a theorem (and never `ok` in the stamp).
+# Currently none (`iso_hom_chord` was the only one; it is proved in SecpSMT3.lean).
 ASSUMED = {
-    "iso_hom_chord": "ASSUMED, not proved: RFC 9380 6.6.3 / E.1, `iso_map` is a group homomorphism E' → E",
 }
-LEANFILES = ["SecpSMT", "SecpSMT2"]
+# lemmas that are proved here although the contract file may still carry the old `{lean: ASSUMED ...}` tag
+STALE_TAG_OK = {"iso_hom_chord"}
+LEANFILES = ["SecpSMT", "SecpSMT2", "SecpSMT3"]
 
 
 def lemma_lines():
@@ -170,7 +178,10 @@ def main():
             rows.append("| `%s` (%s) | none (`SecpSMT.%s_statement` is only the statement) | `%s` | %s |"
                         % (name, f, name, ast.get(name, "?"), ASSUMED[name]))
             continue
-        if tagged:
+        if tagged and name in st and name in STALE_TAG_OK:
+            print("note: %s is still tagged {lean: ASSUMED ...} in %s but is proved (SecpSMT.%s in %s.lean); "
+                  "the tag can be changed to {lean: SecpSMT.%s}" % (name, f, name, st[name][1], name))
+        elif tagged:
             print("lemma tagged ASSUMED in %s but not in the ASSUMED allowlist of smt_table.py:" % f, name); bad = 1
         if name not in st:
             print("NO THEOREM for lemma", name, "(%s)" % f); bad = 1
@@ -187,7 +198,7 @@ def main():
         if name not in seen:
             print("ASSUMED allowlist entry without a lemma line:", name); bad = 1
     print("%d lemma lines, %d with a theorem, %d assumed (intentionally unproved: %s)"
-          % (len(lem), nthm, len(ASSUMED), ", ".join(sorted(ASSUMED))))
+          % (len(lem), nthm, len(ASSUMED), ", ".join(sorted(ASSUMED)) or "none"))
     if not check_only:
         p = os.path.join(root, "README.md")
         s = open(p, encoding="utf-8").read()
